@@ -40,6 +40,12 @@ func run(c *hc.Ctx) {
 	if want("sig") {
 		corrSig(c)
 	}
+	if want("xcorr") {
+		corrXMono(c)
+	}
+	if want("accorr") {
+		corrArcToCube(c)
+	}
 	if want("oracle") {
 		oracleCurves(c)
 	}
@@ -103,7 +109,7 @@ func genQuad(c *hc.Ctx, fam string) (p0, p1, p2 pt) {
 	return
 }
 
-var cubicFamilies = []string{"random", "random", "inflection", "cusp", "loop", "near-collinear", "collinear-overshoot", "closed", "p0=p1", "p2=p3", "hairpin", "gentle", "tiny", "huge"}
+var cubicFamilies = []string{"random", "random", "inflection", "cusp", "loop", "near-collinear", "collinear-overshoot", "closed", "p0=p1", "p2=p3", "hairpin", "gentle", "lead-in", "tiny", "huge"}
 
 func genCubic(c *hc.Ctx, fam string) (p0, p1, p2, p3 pt) {
 	p0, p1, p2, p3 = genPt(c), genPt(c), genPt(c), genPt(c)
@@ -141,6 +147,19 @@ func genCubic(c *hc.Ctx, fam string) (p0, p1, p2, p3 pt) {
 		a := P(c.Range(-1, 1)*30, c.Range(-1, 1)*30)
 		p1 = P(p0.X+a.X, p0.Y+a.Y)
 		p2 = P(p3.X+a.X+c.Range(-1, 1), p3.Y+a.Y+c.Range(-1, 1))
+	case "lead-in":
+		// straight lead-in: p0, p1, p2 nearly collinear (s2 tiny but not zero), p3 well off that line on the
+		// same side — the step is governed by the cubic term s3 (the t3 branch of min(t2, t3))
+		d := P(c.Range(-1, 1), c.Range(-1, 1))
+		if d.X == 0 && d.Y == 0 {
+			d = P(1, 0)
+		}
+		n := P(-d.Y, d.X)
+		eps := []float64{1e-2, 1e-3, 1e-5, 1e-8}[c.Intn(4)]
+		u, v, w, off := c.Range(2, 6), c.Range(7, 12), c.Range(12, 18), c.Range(3, 12)
+		p1 = P(p0.X+u*d.X, p0.Y+u*d.Y)
+		p2 = P(p0.X+v*d.X+eps*n.X, p0.Y+v*d.Y+eps*n.Y)
+		p3 = P(p0.X+w*d.X+off*n.X, p0.Y+w*d.Y+off*n.Y)
 	case "gentle":
 		h := c.Range(-0.3, 0.3)
 		p1 = P(p0.X+dx/3-dy*h, p0.Y+dy/3+dx*h)
@@ -212,6 +231,41 @@ func (a arcIn) path() *canvas.Path {
 
 func genTol(c *hc.Ctx) float64 { return tolerances[c.Intn(len(tolerances))] }
 
+// pow2Scale: the smallest power of two >= the largest coordinate magnitude (>= 1). The tolerant ('~')
+// correspondence lines carry it and both sides divide their output coordinates by it (exact), so that
+// the comparison tolerance is relative to the size of the curve, not to each coordinate (a coordinate of
+// a 1e5-size curve that happens to pass near zero carries the rounding drift of the whole curve).
+func pow2Scale(xs ...float64) float64 {
+	m := 1.0
+	for _, x := range xs {
+		m = math.Max(m, math.Abs(x))
+	}
+	return math.Exp2(math.Ceil(math.Log2(m)))
+}
+
+func flatTokensScaled(d []float64, scale float64) string {
+	e := make([]float64, len(d))
+	copy(e, d)
+	for i := 0; i+3 < len(e); i += 4 {
+		e[i+1] /= scale
+		e[i+2] /= scale
+	}
+	return flatTokens(e)
+}
+
+// maxTildeVertices: '~' lines are emitted only for outputs up to this size: the libm/Go difference of
+// Cbrt/Acos (1 ulp per step) accumulates with the number of steps, and long lines dominate the run time
+const maxTildeVertices = 2000
+
+// tolsFor: in the quick tier the huge (1e4..1e5 coordinates) families use tolerances scaled by 100, which
+// bounds the output at a few thousand points per curve; the thorough tier keeps the unscaled ones
+func tolsFor(c *hc.Ctx, fam string) []float64 {
+	if c.Tier != "thorough" && strings.HasSuffix(fam, "huge") {
+		return []float64{100, 10, 1, 0.01}
+	}
+	return tolerances
+}
+
 // data -> "n x1 y1 ..." for the points after the MoveTo of a flat path
 func flatTokens(d []float64) string {
 	var xs []float64
@@ -232,7 +286,7 @@ func corrQuad(c *hc.Ctx) {
 	for it := 0; it < 2*c.N; it++ {
 		fam := quadFamilies[c.Intn(len(quadFamilies))]
 		p0, p1, p2 := genQuad(c, fam)
-		tol := genTol(c)
+		tol := tolsFor(c, fam)[c.Intn(4)]
 		var d []float64
 		if msg := hc.Try(func() { d = canvas.VerifFlattenQuadraticBezier(p0, p1, p2, tol) }); msg != "" {
 			c.Fail("panic", "flattenQuadraticBezier panicked: "+msg, []float64{p0.X, p0.Y, p1.X, p1.Y, p2.X, p2.Y, tol})
@@ -272,11 +326,33 @@ func stableCount(f func(tol float64) []float64, tol float64) bool {
 	return len(a) == len(d) && len(b) == len(d)
 }
 
+// fixedCubics: the cubics of the repaired strokeCubicBezier defects — they drive the rare branches
+// (overlap with t1max >= 1, t2 range inside t1 range, inflection just below 1) through the FC correspondence
+var fixedCubics = []struct {
+	p   [8]float64
+	tol float64
+}{
+	{[8]float64{5.25, 13.188, -9, 8.401, 6, 1.369, -1.929, 6}, 1},
+	{[8]float64{4.75, -16.342, 2.009085582444131, 1.1275676600967628, 4.744297569384708, -15.214432339903237, 2, 0}, 0.1},
+	{[8]float64{4.75, -16.342, 2.009085582444131, 1.1275676600967628, 4.744297569384708, -15.214432339903237, 2, 0}, 0.01},
+	{[8]float64{0.214, -15.896, 16.371, -3, -0.854, 19.91, -0.854, 19.91}, 0.01},
+	{[8]float64{0, 0, 0, 100, 1, 100, 1, 0}, 1},
+}
+
 func corrCubic(c *hc.Ctx) {
-	for it := 0; it < 2*c.N; it++ {
-		fam := cubicFamilies[c.Intn(len(cubicFamilies))]
-		p0, p1, p2, p3 := genCubic(c, fam)
-		tol := genTol(c)
+	for it := 0; it < len(fixedCubics)+2*c.N; it++ {
+		var fam string
+		var p0, p1, p2, p3 pt
+		var tol float64
+		if it < len(fixedCubics) {
+			f := fixedCubics[it]
+			fam, tol = "fixed", f.tol
+			p0, p1, p2, p3 = P(f.p[0], f.p[1]), P(f.p[2], f.p[3]), P(f.p[4], f.p[5]), P(f.p[6], f.p[7])
+		} else {
+			fam = cubicFamilies[c.Intn(len(cubicFamilies))]
+			p0, p1, p2, p3 = genCubic(c, fam)
+			tol = tolsFor(c, fam)[c.Intn(4)]
+		}
 		args := hc.Hs(p0.X, p0.Y, p1.X, p1.Y, p2.X, p2.Y, p3.X, p3.Y)
 		// inflection points: + - * / sqrt only -> exact
 		t1, t2 := canvas.VerifFindInflectionPointsCubicBezier(p0, p1, p2, p3)
@@ -289,6 +365,7 @@ func corrCubic(c *hc.Ctx) {
 		default:
 			c.Count("inflections:0")
 		}
+		c.Count("branch:strokeCubicBezier:" + strokeBranch(p0, p1, p2, p3, t1, t2, math.Max(tol, canvas.Epsilon)))
 		// subdivision loop alone
 		fs := func(tol float64) []float64 { return canvas.VerifFlattenSmoothCubicBezier(p0, p1, p2, p3, tol) }
 		fc := func(tol float64) []float64 { return canvas.VerifFlattenCubicBezier(p0, p1, p2, p3, tol) }
@@ -297,14 +374,27 @@ func corrCubic(c *hc.Ctx) {
 			c.Fail("panic", "flattenCubicBezier panicked: "+msg, []float64{p0.X, p0.Y, p1.X, p1.Y, p2.X, p2.Y, p3.X, p3.Y, tol})
 			continue
 		}
+		// the correspondence inputs are judged by the oracle as well (when a model/code difference shows up here
+		// the failing input is at hand)
+		if len(dc)/4 <= 300 {
+			cp := &canvas.Path{}
+			cp.MoveTo(p0.X, p0.Y)
+			cp.CubeTo(p1.X, p1.Y, p2.X, p2.Y, p3.X, p3.Y)
+			flattenOne(c, cp, tol, "corr-cubic:"+fam)
+		}
+		sc := pow2Scale(p0.X, p0.Y, p1.X, p1.Y, p2.X, p2.Y, p3.X, p3.Y)
+		if len(ds)/4 > maxTildeVertices || len(dc)/4 > maxTildeVertices {
+			c.Count("corr-cubic-skip-more-than-2000-vertices")
+			continue
+		}
 		if stableCount(fs, tol) {
-			c.Case("FS "+args+" "+hc.H(tol), "~", flatTokens(ds))
+			c.Case("FS "+args+" "+hc.H(tol)+" "+hc.H(sc), "~", flatTokensScaled(ds, sc))
 			c.Count("corr-smooth:" + fam)
 		} else {
 			c.Count("corr-smooth-skip-threshold")
 		}
 		if stableCount(fc, tol) {
-			c.Case("FC "+args+" "+hc.H(tol), "~", flatTokens(dc))
+			c.Case("FC "+args+" "+hc.H(tol)+" "+hc.H(sc), "~", flatTokensScaled(dc, sc))
 			c.Count("corr-cubic:" + fam)
 			c.Count("corr-cubic-vertices:" + bucket(len(dc)/4-1))
 			c.Distinct("FC " + args + hc.H(tol))
@@ -312,6 +402,56 @@ func corrCubic(c *hc.Ctx) {
 			c.Count("corr-cubic-skip-threshold")
 		}
 	}
+}
+
+// strokeBranch names the path strokeCubicBezier (d = 0) takes through its inflection-range logic, from the
+// exported pieces of that logic (generator quality: which branches of the modelled function are reached)
+func strokeBranch(p0, p1, p2, p3 pt, t1, t2, tol float64) string {
+	if math.IsNaN(t1) && math.IsNaN(t2) {
+		return "no-inflection"
+	}
+	var t1min, t1max, t2min, t2max float64
+	if msg := hc.Try(func() {
+		t1min, t1max = canvas.VerifFindInflectionPointRangeCubicBezier(p0, p1, p2, p3, t1, tol)
+		t2min, t2max = canvas.VerifFindInflectionPointRangeCubicBezier(p0, p1, p2, p3, t2, tol)
+	}); msg != "" {
+		return "range-panic"
+	}
+	if math.IsNaN(t2) && t1min <= 0 && 1 <= t1max {
+		return "one-range-covers-all"
+	}
+	b := "pre=0"
+	if 0 < t1min {
+		b = "pre=1"
+	}
+	if 0 < t1max && t1max < 1 && t1max < t2min {
+		if 1 <= t2min {
+			return b + ",t1-then-smooth-rest"
+		}
+		b += ",t1-separate"
+	} else if 1 <= t2min {
+		return b + ",t1-reaches-end"
+	}
+	if 0 < t2min {
+		if t2min < t1max {
+			if 1 <= t1max {
+				return b + ",overlap-t1-beyond-end"
+			}
+			b += ",overlap"
+		} else {
+			b += ",gap-smooth"
+		}
+	} else {
+		b += ",t2min<=0"
+	}
+	if t2max < t1max {
+		b += ",t2-inside-t1"
+		t2max = t1max
+	}
+	if t2max < 1 {
+		return b + ",rest-smooth"
+	}
+	return b + ",t2-reaches-end"
 }
 
 func corrArc(c *hc.Ctx) {
@@ -326,7 +466,7 @@ func corrArc(c *hc.Ctx) {
 		// the canonical arguments stored by ArcTo are what replace() hands to flattenEllipticArc
 		rx, ry, phi := d[5], d[6], d[7]
 		large, sweep := d[8] == 1 || d[8] == 3, d[8] == 2 || d[8] == 3
-		tol := genTol(c)
+		tol := tolsFor(c, fam)[c.Intn(4)]
 		f := func(tol float64) []float64 {
 			return canvas.VerifFlattenEllipticArc(a.start, rx, ry, phi, large, sweep, a.end, tol)
 		}
@@ -335,7 +475,8 @@ func corrArc(c *hc.Ctx) {
 			c.Fail("panic", "flattenEllipticArc panicked: "+msg, fmt.Sprint(a, tol))
 			continue
 		}
-		line := fmt.Sprintf("FA %s %s %s", hc.B(large), hc.B(sweep), hc.Hs(a.start.X, a.start.Y, rx, ry, phi, a.end.X, a.end.Y, tol))
+		sc := pow2Scale(a.start.X, a.start.Y, a.end.X, a.end.Y, rx)
+		line := fmt.Sprintf("FA %s %s %s", hc.B(large), hc.B(sweep), hc.Hs(a.start.X, a.start.Y, rx, ry, phi, a.end.X, a.end.Y, tol, sc))
 		if !canvas.Equal(rx, ry) {
 			c.Case(line, "=", "NOTCIRCLE")
 			c.Count("corr-arc:elliptic-route")
@@ -357,10 +498,95 @@ func corrArc(c *hc.Ctx) {
 			c.Count("corr-arc-skip-more-than-2000-vertices")
 			continue
 		}
-		c.Case(line, "~", flatTokens(out))
+		c.Case(line, "~", flatTokensScaled(out, sc))
 		c.Count("corr-arc:circle:" + fam)
 		c.Count(fmt.Sprintf("corr-arc-flags:large=%v,sweep=%v", large, sweep))
 		c.Distinct(line)
+	}
+}
+
+// curveTokens: the control and end points of the Q / C commands after the MoveTo; ok=false when the
+// builder turned a piece into a LineTo (collinear control polygon) or dropped it
+func curveTokens(d []float64, kind float64, n int) (string, bool) {
+	var xs []float64
+	for i := 4; i < len(d); i += n {
+		if d[i] != kind || i+n > len(d) {
+			return "", false
+		}
+		xs = append(xs, d[i+1:i+n-1]...)
+	}
+	return hc.Hs(xs...), len(xs) > 0
+}
+
+// arcToCube (ellipseToCubicBeziers + ellipseToCenter) against the Lean transcription; Sincos/Acos/Tan -> '~',
+// coordinates divided by the power-of-two scale on both sides
+func corrArcToCube(c *hc.Ctx) {
+	for it := 0; it < c.N; it++ {
+		fam := arcFamilies[c.Intn(len(arcFamilies))]
+		a := genArc(c, fam)
+		d := a.path().Data()
+		if len(d) != 12 || d[4] != canvas.ArcToCmd {
+			c.Count("corr-arctocube-skip-not-an-arc")
+			continue
+		}
+		rx, ry, phi := d[5], d[6], d[7]
+		large, sweep := d[8] == 1 || d[8] == 3, d[8] == 2 || d[8] == 3
+		var out []float64
+		if msg := hc.Try(func() { out = canvas.VerifArcToCube(a.start, rx, ry, phi, large, sweep, a.end) }); msg != "" {
+			c.Fail("panic", "arcToCube panicked: "+msg, fmt.Sprint(a))
+			continue
+		}
+		// the number of pieces is ceil(|dtheta| / 90deg): at an exact multiple (half ellipses) the last ulp of
+		// Acos decides; such threshold cases are skipped and counted
+		_, _, th0, th1 := canvas.VerifEllipseToCenter(a.start.X, a.start.Y, rx, ry, phi, large, sweep, a.end.X, a.end.Y)
+		if q := math.Abs(th1-th0) / (math.Pi / 2); math.Abs(q-math.Round(q)) < 1e-9 {
+			c.Count("corr-arctocube-skip-threshold")
+			continue
+		}
+		sc := pow2Scale(a.start.X, a.start.Y, a.end.X, a.end.Y, rx)
+		e := make([]float64, len(out))
+		copy(e, out)
+		for i := 4; i+7 < len(e); i += 8 {
+			for k := 1; k <= 6; k++ {
+				e[i+k] /= sc
+			}
+		}
+		toks, ok := curveTokens(e, canvas.CubeToCmd, 8)
+		if !ok {
+			c.Count("corr-arctocube-skip-builder-simplified")
+			continue
+		}
+		c.Case(fmt.Sprintf("AC %s %s %s", hc.B(large), hc.B(sweep), hc.Hs(a.start.X, a.start.Y, rx, ry, phi, a.end.X, a.end.Y, sc)), "~", toks)
+		c.Count(fmt.Sprintf("corr-arctocube:%s:pieces=%d", fam, (len(out)-4)/8))
+	}
+}
+
+// xmonotoneQuadraticBezier / xmonotoneCubicBezier against the Lean transcriptions: + - * / sqrt and
+// comparisons only -> bit exact
+func corrXMono(c *hc.Ctx) {
+	for it := 0; it < c.N; it++ {
+		fam := quadFamilies[c.Intn(len(quadFamilies))]
+		p0, p1, p2 := genQuad(c, fam)
+		d := canvas.VerifXMonotoneQuadraticBezier(p0, p1, p2)
+		if toks, ok := curveTokens(d, canvas.QuadToCmd, 6); ok {
+			c.Case("XQ "+hc.Hs(p0.X, p0.Y, p1.X, p1.Y, p2.X, p2.Y), "=", toks)
+			c.Count(fmt.Sprintf("corr-xmono-quad:pieces=%d", (len(d)-4)/6))
+		} else {
+			c.Count("corr-xmono-quad-skip-builder-simplified")
+		}
+		cfam := cubicFamilies[c.Intn(len(cubicFamilies))]
+		q0, q1, q2, q3 := genCubic(c, cfam)
+		var dc []float64
+		if msg := hc.Try(func() { dc = canvas.VerifXMonotoneCubicBezier(q0, q1, q2, q3) }); msg != "" {
+			c.Fail("panic", "xmonotoneCubicBezier panicked: "+msg, []float64{q0.X, q0.Y, q1.X, q1.Y, q2.X, q2.Y, q3.X, q3.Y})
+			continue
+		}
+		if toks, ok := curveTokens(dc, canvas.CubeToCmd, 8); ok {
+			c.Case("XC "+hc.Hs(q0.X, q0.Y, q1.X, q1.Y, q2.X, q2.Y, q3.X, q3.Y), "=", toks)
+			c.Count(fmt.Sprintf("corr-xmono-cubic:pieces=%d", (len(dc)-4)/8))
+		} else {
+			c.Count("corr-xmono-cubic-skip-builder-simplified")
+		}
 	}
 }
 
@@ -823,8 +1049,12 @@ func classify(s hc.Seg) string {
 //	quadratic, control polygon turning <= 90 degrees: 2 (theorems C03.quad_piece_within_two_tol_partial,
 //	   C03.quad_last_piece_within_two_tol_partial)
 //	circle arcs: vertices on radius r + ratio*tol, chords touch r - tol (ratio <= 1) -> 2
-//	cubic (turn <= 90 degrees): no theorem; step rule from the r-s expansion of Hain et al.; 4 leaves a
-//	   factor two above the maximum observed on the unchanged tree (recorded in the histogram)
+//	cubic (turn <= 90 degrees): derived from the step rule, no Lean theorem. In the r-s frame of the piece
+//	   (Hain et al.) the deviation from the start tangent is s(x) = 3 s2 x^2 + (s3 - 3 s2) x^3; the code steps
+//	   t = min(t2, t3) with 3 s2 t2^2 = 4 tol and |s3| t3^3 = 8 tol. Against the chord of [0,t] the x^2 term
+//	   deviates by at most 3 s2 t^2/4 <= tol, the x^3 term by at most 2/(3 sqrt 3) |s3 - 3 s2| t^3
+//	   <= 0.3849 (8 + 4) tol, together 5.62 tol (a curve observed on the unchanged tree reaches 4.36:
+//	   M-4 10C-5 -7 -4 -10 15.805 -12.319 at tol 0.1)
 //
 // Elliptic (rx != ry) arcs are first replaced by cubics (arcToCube), which have a fixed relative error:
 // for the control length alpha = sin(d)(sqrt(4+3 tan^2(d/2))-1)/3 used by the code the midpoint of a
@@ -832,7 +1062,7 @@ func classify(s hc.Seg) string {
 const (
 	cQuad      = 2.0
 	cCircle    = 2.0
-	cCubic     = 4.0
+	cCubic     = 5.62
 	arcToCubeR = 2.0e-3
 )
 
@@ -949,6 +1179,24 @@ func flattenOne(c *hc.Ctx, p *canvas.Path, tol float64, fam string) {
 		}
 		return
 	}
+	// verdict in Lean: for a single Bézier of a class for which the bound is claimed (every quadratic, cubics
+	// without fold-back) the observation (control points, tolerance, bound, rounding allowance, the real
+	// output polyline) goes to the driver, which samples the curve itself and decides with `coveredBy`
+	if len(in) == 2 && (in[1].Kind == 'Q' || in[1].Kind == 'C') && classify(in[1]) == "" && len(out) <= 600 {
+		s := in[1]
+		ctrl := []float64{s.P0.X, s.P0.Y, s.P1.X, s.P1.Y}
+		deg := "2"
+		if s.Kind == 'C' {
+			ctrl = append(ctrl, s.P2.X, s.P2.Y)
+			deg = "3"
+		}
+		ctrl = append(ctrl, s.End.X, s.End.Y, tol, boundFor(s), round)
+		for _, o := range out {
+			ctrl = append(ctrl, o.End.X, o.End.Y)
+		}
+		c.Case("HD "+deg+" "+hc.Hs(ctrl...), "!", "lean-verdict")
+		c.Count("lean-verdict:" + string(s.Kind))
+	}
 	known := classify(j.worst)
 	if w := j.worst; w.Kind == 'A' && !canvas.Equal(w.Rx, w.Ry) {
 		// elliptic route: the arc is flattened as the cubics of arcToCube; label it by their control polygons
@@ -1023,7 +1271,7 @@ func oracleCurves(c *hc.Ctx) {
 			p := &canvas.Path{}
 			p.MoveTo(p0.X, p0.Y)
 			p.QuadTo(p1.X, p1.Y, p2.X, p2.Y)
-			for _, tol := range tolerances {
+			for _, tol := range tolsFor(c, fam) {
 				flattenOne(c, p, tol, "quad:"+fam)
 			}
 		} else {
@@ -1032,7 +1280,7 @@ func oracleCurves(c *hc.Ctx) {
 			p := &canvas.Path{}
 			p.MoveTo(p0.X, p0.Y)
 			p.CubeTo(p1.X, p1.Y, p2.X, p2.Y, p3.X, p3.Y)
-			for _, tol := range tolerances {
+			for _, tol := range tolsFor(c, fam) {
 				flattenOne(c, p, tol, "cubic:"+fam)
 			}
 		}
@@ -1047,7 +1295,7 @@ func oracleCurves(c *hc.Ctx) {
 			continue
 		}
 		c.Count(fmt.Sprintf("oracle-arc-flags:large=%v,sweep=%v", a.large, a.sweep))
-		for _, tol := range tolerances {
+		for _, tol := range tolsFor(c, fam) {
 			if canvas.Equal(d[5], d[6]) {
 				flattenOne(c, p, tol, "arc-circle:"+fam)
 			} else {
@@ -1065,14 +1313,17 @@ func oraclePaths(c *hc.Ctx) {
 	}
 }
 
-// segSag bounds how far the dense polyline of one segment is from the segment itself: the chord
-// between neighbouring samples deviates by about a quarter of the distance of a sample from the chord
-// of its two neighbours (second difference); at turn-back points (cusps, hairpin tips) it can reach the
-// full second difference, which is what is used.
+// segSag bounds how far the dense polyline of one segment is from the segment itself. For samples at
+// parameter step h the curve leaves the chord of two neighbouring samples by at most |S''| h^2 / 8, and
+// |S''| h^2 is what the vector second difference sp[i-1] - 2 sp[i] + sp[i+1] measures (exactly for a
+// quadratic, to first order otherwise). A quarter of its largest length is used (factor two of margin).
+// The geometric distance of a sample from the chord of its neighbours is NOT a bound: at the tip of a
+// thin hairpin two samples sit symmetrically around the tip and the chord hides it.
 func segSag(sp []hc.P2) float64 {
 	m := 0.0
 	for i := 1; i+1 < len(sp); i++ {
-		m = math.Max(m, hc.DistPointSeg(sp[i], sp[i-1], sp[i+1]))
+		dd := sp[i-1].Add(sp[i+1]).Sub(sp[i].Mul(2))
+		m = math.Max(m, dd.Len()/4)
 	}
 	return m
 }
@@ -1361,9 +1612,29 @@ func oracleXMonotone(c *hc.Ctx) {
 				continue
 			}
 			if !xMonotoneSeg(s, 1e-9*scale) {
-				if ext := math.Max(s.P0.Dist(s.End), math.Max(s.P1.Dist(s.P0), s.P2.Dist(s.P0))); s.Kind != 'A' && ext < 1e-4 {
-					// solveQuadraticFormula compares coefficients and the discriminant with the ABSOLUTE Epsilon 1e-10
-					knownFail(c, "xmonotone-tiny-curve-absolute-epsilon", fmt.Sprintf("output %c segment of extent %g is not x-monotone", s.Kind, ext), replay)
+				// cause predicate of the recorded defect: xmonotoneCubicBezier hands the coefficients (a, b, c) of the
+				// x-derivative of an input cubic to solveQuadraticFormula, and one of its ABSOLUTE tests
+				// Equal(a,0), Equal(c,0), Equal(b*b-4ac, 0) (Epsilon 1e-10) fires although the same quantity is
+				// not small relative to the coefficients (it would not fire after dividing by max(|a|,|b|,|c|))
+				misfire := false
+				for _, q := range in {
+					if q.Kind == 'C' {
+						a := -q.P0.X + 3*q.P1.X - 3*q.P2.X + q.End.X
+						b := 2*q.P0.X - 4*q.P1.X + 2*q.P2.X
+						cc := -q.P0.X + q.P1.X
+						m := math.Max(math.Abs(a), math.Max(math.Abs(b), math.Abs(cc)))
+						if m == 0 {
+							continue
+						}
+						disc := b*b - 4*a*cc
+						abs := func(v float64) bool { return math.Abs(v) <= canvas.Epsilon }
+						if (abs(a) && !abs(a/m)) || (abs(cc) && !abs(cc/m)) || (abs(b) && !abs(b/m)) || (abs(disc) && !abs(disc/(m*m))) {
+							misfire = true
+						}
+					}
+				}
+				if s.Kind == 'C' && misfire {
+					knownFail(c, "xmonotone-tiny-curve-absolute-epsilon", "output C segment is not x-monotone; an absolute Epsilon test of solveQuadraticFormula fires on the x-derivative coefficients of an input cubic although the scale-free test would not", replay)
 					bad = true
 					break
 				}
